@@ -1,8 +1,112 @@
 (* C22 — Shell argument vector follows the documented field semantics. *)
-From Pydra Require Import Base.Prelude Base.Shlex Model.Shell Spec.Shell Proofs.ShellRefute.
+From Pydra Require Import Base.Prelude Base.Shlex Model.Shell Spec.Shell
+  Proofs.ShellRefute Proofs.ShellAssign Proofs.ShellOrderThm Proofs.ShellContrib Proofs.ShellArgv Proofs.ShellCorollaries.
+Local Open Scope list_scope.
 
+(* the property at full strength: every accepted definition (functional or class form), every value assignment *)
 Definition C22_full_statement : Prop := C22_statement.
 
+(* ---- the unchanged code violates it (each witness is replayed against pydra by the driver) *)
 Theorem C22_refuted_gap : ~ C22_full_statement.
 Proof. exact refuted_gap. Qed.
 Print Assumptions C22_refuted_gap.
+
+Theorem C22_refuted_class_form :
+  task_argv ClassForm echo (map to_field cls_fields) cls_vals (AppList [])
+    = Good (map la_of ["echo"; "-a"; "A"; "-m"; "M"; "-z"; "Z"]%string)
+  /\ spec_argv echo cls_fields cls_vals [] = map la_of ["echo"; "-z"; "Z"; "-a"; "A"; "-m"; "M"]%string
+  /\ task_argv Functional echo (map to_field cls_fields) cls_vals (AppList []) = Good (spec_argv echo cls_fields cls_vals []).
+Proof. exact refuted_class_form. Qed.
+Print Assumptions C22_refuted_class_form.
+
+Theorem C22_refuted_wrap :
+  has_dup (raw_positions wrap_fields) = false /\
+  task_argv Functional echo (map to_field wrap_fields) [sv "o" "O"; sv "m" "M"] (AppList []) = Bad EOverlap.
+Proof. exact refuted_wrap. Qed.
+Print Assumptions C22_refuted_wrap.
+
+Theorem C22_refuted_falsy :
+  task_argv Functional echo (map to_field zero_fields) [(la_of "n", VAtom (AInt 0))] (AppList []) = Good [la_of "echo"]
+  /\ spec_argv echo zero_fields [(la_of "n", VAtom (AInt 0))] [] = map la_of ["echo"; "-n"; "0"]%string.
+Proof. exact refuted_falsy. Qed.
+Print Assumptions C22_refuted_falsy.
+
+Theorem C22_refuted_dots_sep :
+  task_argv Functional echo (map to_field dots_fields) dots_vals (AppList []) = Good (map la_of ["echo"; "-r"; "1,"; "-r"; "2"]%string)
+  /\ spec_argv echo dots_fields dots_vals [] = map la_of ["echo"; "-r"; "1"; "-r"; "2"]%string.
+Proof. exact refuted_dots_sep. Qed.
+Print Assumptions C22_refuted_dots_sep.
+
+(* ---- strongest positive statement: for ALL definitions and values inside the computable class c22_in_domain
+        (Spec/Shell.v) the faithful model of define + _command_args yields exactly the reference vector *)
+Theorem C22_partial : forall e fs vals app,
+  c22_in_domain Functional e fs vals = true ->
+  task_argv Functional e (map to_field fs) vals (AppList app) = Good (spec_argv e fs vals app).
+Proof. exact argv_in_domain. Qed.
+Print Assumptions C22_partial.
+
+(* the class is not trivial: sparse-free explicit positions, negatives, flags, lists with '...', templates, a
+   multi-input, an unset optional, shell metacharacters and UTF-8 in the values *)
+Definition ex_fields : list sfield :=
+  [mkS (la_of "out") TPath (SA [[Lit (la_of "-o")]; [Self]] false) (Some (-1)%Z) (la_of " ");
+   mkS (la_of "v") TBool (SA [[Lit (la_of "--verbose")]] false) None (la_of " ");
+   mkS (la_of "inp") TList (SA [[Lit (la_of "-i")]] true) (Some 1%Z) (la_of " ");
+   mkS (la_of "k") TInt (SA [[Lit (la_of "--k="); Self]] false) None (la_of " ");
+   mkS (la_of "m") TMulti (SA [[Lit (la_of "-m")]] false) (Some (-2)%Z) (la_of " ");
+   mkS (la_of "l") TList (SA [[Lit (la_of "--l")]] false) None (la_of ",");
+   mkS (la_of "u") TStr (SA [[Lit (la_of "-u")]] false) None (la_of " ")].
+Definition ex_vals : vals_t :=
+  [(la_of "out", VAtom (APath (la_of "res/$x*.txt"))); (la_of "v", VBool true);
+   (la_of "inp", VList [AStr (la_of "a;b"); AStr (la_of "c|d")]); (la_of "k", VAtom (AInt 7));
+   (la_of "m", VList [AStr (la_of "p"); AStr (la_of "q")]); (la_of "l", VList [AInt 1; AInt 2]); (la_of "u", VNone)].
+Example C22_partial_nontrivial :
+  c22_in_domain Functional echo ex_fields ex_vals = true /\
+  spec_argv echo ex_fields ex_vals [la_of "x y"] =
+    map la_of ["echo"; "-i"; "a;b"; "-i"; "c|d"; "--verbose"; "--k=7"; "--l"; "1,2"; "-m"; "p"; "-m"; "q"; "-o"; "res/$x*.txt"; "x y"]%string.
+Proof. split; vm_compute; reflexivity. Qed.
+
+(* ---- the parts *)
+(* order: define() gives every unpositioned field a position; sorting by those positions is the stated order
+   whenever each explicit non-negative position lies below the first implicit one -- whatever the fields contribute *)
+Theorem C22_order_dense : forall (g : sfield -> option (list la)) fs ex,
+  (forall f p, g (set_spos f p) = g f) ->
+  has_dup (used_slots (map to_field fs)) = false ->
+  order_ok fs = true ->
+  define Functional (map to_field fs) = Good (map to_field (sassign fs (free_slots (map to_field fs)))) /\
+  List.concat (position_sort ((Some 0%Z, ex) :: ents g (sassign fs (free_slots (map to_field fs)))))
+  = ex ++ List.concat (map (payload g) (spec_order fs)).
+Proof. intros g fs ex Hg Hd Ho. split; [now apply define_functional|now apply order_dense]. Qed.
+Print Assumptions C22_order_dense.
+
+(* omission: None and empty multi-inputs are dropped before anything else; a flag contributes itself or nothing *)
+Theorem C22_omission : 
+  (forall F vals nm, (forall g, In g F -> f_name g = nm -> is_unset g (lookup vals nm) = true) ->
+                     is_present (drop_unset F vals) nm = false)
+  /\ (forall f, is_unset f VNone = true /\ (f_ty f = TMulti -> is_unset f (VList []) = true))
+  /\ (forall f vals argstr b, f_ty f = TBool -> f_argstr f = Some argstr -> has_char lbrace argstr = false ->
+        lookup vals (f_name f) = VBool b ->
+        command_pos_args f vals = Good (Some (f_pos f, if b then [argstr] else []))).
+Proof. exact (conj omission_unset (conj omission_none_and_empty_multi flag_rule)). Qed.
+Print Assumptions C22_omission.
+
+(* list values: '...' repeats the argstr per element; otherwise the elements are joined by the separator into one
+   argument (a blank separator gives separate arguments); a MultiInputObj yields one occurrence per element *)
+Theorem C22_list_expansion : forall f ws dots, field_hyps f ws dots -> forall valsM valsS l,
+  lookup valsM (sf_name f) = VList l -> forallb atom_ok l = true ->
+  (dots = true -> sf_sep f = [" "%char] -> forallb (fun a => inert ws valsS (render_atom a)) l = true ->
+     format_arg (to_field f) (render_words (sf_name f) ws ++ (if dots then ellipsis else [])) valsM
+     = Good (List.concat (map (fun a => occurrence ws valsS (render_atom a)) l)))
+  /\ (dots = false -> forallb benign_char (sf_sep f) = true -> l <> [] ->
+      inert ws valsS (join_sep (sf_sep f) (map render_atom l)) = true ->
+     format_arg (to_field f) (render_words (sf_name f) ws ++ (if dots then ellipsis else [])) valsM
+     = Good (occurrence ws valsS (join_sep (sf_sep f) (map render_atom l))))
+  /\ (dots = false -> sf_sep f = [" "%char] -> has_ph ws = false ->
+     format_arg (to_field f) (render_words (sf_name f) ws ++ (if dots then ellipsis else [])) valsM
+     = Good (match l with [] => [] | _ => map (inst_word valsS []) ws ++ map render_atom l end)).
+Proof.
+  intros f ws dots FH valsM valsS l Hl Hok. repeat split.
+  - intros Hd Hs Hin. now apply format_dots.
+  - intros Hd Hs Hne Hin. now apply format_join_sep.
+  - intros Hd Hs Hph. now apply format_join_blank.
+Qed.
+Print Assumptions C22_list_expansion.
